@@ -552,7 +552,8 @@ func (c *client) receive(r io.Reader) (err error) {
 	defer func() { returnResult(rpc, response, err) }()
 
 	if header.Exception != nil {
-		err = exceptionToError(*header.Exception.ExceptionClassName, *header.Exception.StackTrace)
+		err = exceptionToError(header.Exception.GetExceptionClassName(),
+			header.Exception.GetStackTrace())
 		return
 	}
 
@@ -575,6 +576,11 @@ func (c *client) receive(r io.Reader) (err error) {
 		cellsLen = header.CellBlockMeta.GetLength()
 	}
 	if d, ok := rpc.(canDeserializeCellBlocks); cellsLen > 0 && ok {
+		if cellsLen > size {
+			err = RetryableError{fmt.Errorf("failed to decode the response: "+
+				"cellblocks length %d is larger than the response (%d)", cellsLen, size)}
+			return
+		}
 		b := b[size-cellsLen:]
 		if c.compressor != nil {
 			b, err = c.compressor.decompressCellblocks(b)
